@@ -169,7 +169,7 @@ func c01Opts() bridge.GenOpts {
 	o.NoFunds = true
 	o.BigAmounts = true
 	o.Holders = true
-	o.Weights = map[string]int{"deposit": 16, "transfer": 14, "send": 26, "xexec": 14, "cancel": 8, "send2": 3, "byz": 7}
+	o.Weights = map[string]int{"deposit": 16, "transfer": 14, "send": 26, "xexec": 14, "cancel": 8, "send2": 3, "byz": 7, "xround": 5}
 	o.MaxVals = 5
 	o.TimeoutMs = []uint64{20000, 60000, 86400000 - 1}
 	return o
@@ -186,6 +186,7 @@ func TestC01(t *testing.T) {
 			sv := &bridge.Solvency{}
 			pl := bridge.NewPlacement()
 			it := bridge.NewInterp(c, "C01", sv, pl)
+			it.Lenient = true // the placement checker only feeds the non-trivial rule here
 			it.NoHash = true
 			f := it.Run()
 			odd := false
@@ -201,6 +202,9 @@ func TestC01(t *testing.T) {
 			}
 			if it.FailedProp() != "" {
 				rec.Label("stopped-by:" + it.FailedKey())
+			}
+			if it.Foreign != "" {
+				rec.Label("other-property-diverged:" + it.Foreign)
 			}
 			return f
 		},
